@@ -61,7 +61,7 @@ PROPERTIES = {
         'does_not_decide': 'behavioural equivalence of configurations as a whole',
     },
     'C11': {
-        'rules': [must.rule_unlink_both, stale.rule_admit_live, stale.rule_stale_removal, stale.rule_must_drain, must.rule_must_invalidate],
+        'rules': [must.rule_unlink_both, stale.rule_admit_live, stale.rule_stale_removal, stale.rule_must_drain, must.rule_must_invalidate, must.rule_must_expire],
         'explanation': 'Exactly-once is Rust ownership everywhere except the raw-pointer list, so the check is about that boundary: every '
                        'removal from the map unlinks and frees both deque nodes of the entry, maintenance never creates a node for an entry '
                        'that already left the map, and never removes by key alone.',
@@ -79,7 +79,7 @@ PROPERTIES = {
         'does_not_decide': 'the numeric equality itself (saturation, weigher determinism), quiescent multi-thread states',
     },
     'C01': {
-        'rules': [live.rule_guard_live_all, must.rule_must_invalidate, must.rule_must_insert, must.rule_auth_value],
+        'rules': [live.rule_guard_live_all, must.rule_must_invalidate, must.rule_must_insert, must.rule_auth_value, must.rule_impl_accessors],
         'explanation': 'Path-sensitive abstract interpretation of the 6 lookups (get / contains_key / Iter::next of both caches): on '
                        'every path that returns a hit, the entry that is returned was checked against ttl, tti and (sync) the '
                        'invalidate_all watermark with the exact comparison operators and operand roles.',
@@ -87,14 +87,14 @@ PROPERTIES = {
         'does_not_decide': 'HashMap/DashMap lookup correctness; that the latest insert wins under concurrency (C02)',
     },
     'C05': {
-        'rules': [live.rule_guard_live_ttl, must.rule_update_resets, must.rule_wo_node, cfg.rule_flow_config_names, cfg.rule_build_validate],
+        'rules': [live.rule_guard_live_ttl, must.rule_update_resets, must.rule_wo_node, cfg.rule_flow_config_names, cfg.rule_build_validate, stale.rule_auth_ts_writers, must.rule_impl_accessors],
         'explanation': 'Every hit path of the 6 lookups establishes last_modified + time_to_live <= now == false (inclusive boundary) '
                        'on the returned entry with `now` read from the clock in the same call.',
         'decides': 'the inclusive ttl boundary test is applied by every lookup to the returned entry',
         'does_not_decide': 'clock monotonicity; DashMap guard atomicity between an update and a concurrent read',
     },
     'C06': {
-        'rules': [live.rule_guard_live_tti, fx.rule_pure_observers_ts, must.rule_update_resets, cfg.rule_flow_config_names],
+        'rules': [live.rule_guard_live_tti, fx.rule_pure_observers_ts, must.rule_update_resets, cfg.rule_flow_config_names, stale.rule_auth_ts_writers, adm.rule_must_recency, must.rule_impl_accessors],
         'explanation': 'Every hit path of the 6 lookups establishes last_accessed + time_to_idle <= now == false (inclusive) on the '
                        'returned entry; contains_key / iteration have no write effect on any timestamp store.',
         'decides': 'the inclusive tti boundary test is applied by every lookup; observers cannot extend the idle deadline',
@@ -116,7 +116,7 @@ PROPERTIES = {
     },
     'C03': {
         'rules': [live.rule_miss_reasons, flow.rule_flow_unsync, flow.rule_flow_admit_sums_unsync, flow.rule_flow_sync,
-                  stale.rule_stale_ts, stale.rule_stale_removal, stale.rule_admit_live],
+                  stale.rule_stale_ts, stale.rule_stale_removal, stale.rule_admit_live, adm.rule_must_recency, adm.rule_cmp_evict],
         'explanation': 'Every miss path of the 6 lookups is explained by key-absent / iterator-exhausted or a true expiry / watermark '
                        'comparison on that entry.',
         'decides': 'lookups hide an existing entry only for expiry or invalidation',
@@ -135,7 +135,7 @@ PROPERTIES = {
         'does_not_decide': 'effects of user callbacks (Hash/Eq/Clone/Debug); HashMap/DashMap internals',
     },
     'C14': {
-        'rules': [fx.rule_auth_sketch_record, fx.rule_pair_readop_once, fx.rule_const_masks, fx.rule_sketch_structure],
+        'rules': [fx.rule_auth_sketch_record, fx.rule_pair_readop_once, fx.rule_const_masks, fx.rule_sketch_structure, adm.rule_must_recency],
         'explanation': 'Decides the clause "only get calls are recorded, each exactly once" plus structural necessary conditions of the '
                        'numeric clauses: who can reach the sketch increment role, where ReadOps are constructed and consumed, one record per '
                        'path through get, RESET/ONE/nibble masks and the 128 clamp, aging visits the whole table and halves every slot, '
